@@ -67,9 +67,16 @@ def cases(tier, seed):
                                 if tier == "quick" and solver != "full" and (s and cl and w):
                                     continue
                                 out.append(dict(model=model, cplx=cplx, shape=[n, p], spec=spec, scale=scale, center=c, standardize=s, coslat=cl, weights=w, n_modes=k, solver=solver))
-    # ---- HilbertEOF
+    # ---- EOF on integer-typed storage (counts, packed data): the same numbers as their float64 copy, which the reference uses
+    for store in ("int32", "int16") if tier == "quick" else ("int64", "int32", "int16", "uint8"):
+        for (n, p) in ([(12, 6)] if tier == "quick" else [(12, 6), (6, 4), (4, 6)]):
+            for (c, s, cl, w) in flags_all:
+                for k in ((1, min(n, p)) if tier == "quick" else range(1, min(n, p) + 1)):
+                    for solver in (["full"] if tier == "quick" else solvers):
+                        out.append(dict(model="EOF", cplx=False, shape=[n, p], spec="geometric", scale=1.0, center=c, standardize=s, coslat=cl, weights=w, n_modes=k, solver=solver, store=store))
+    # ---- HilbertEOF   (13 samples: an odd, prime length - no FFT fast path, no Nyquist bin)
     for padding in (None, "exp"):
-        for (n, p) in ([(12, 6), (6, 4)] if tier == "quick" else [(6, 4), (9, 6), (12, 6), (8, 1)]):
+        for (n, p) in ([(12, 6), (6, 4), (13, 3)] if tier == "quick" else [(6, 4), (9, 6), (12, 6), (8, 1), (13, 3), (11, 4)]):
             for spec in (["geometric", "rank_def"] if tier == "quick" else specs_t):
                 for (c, s, cl, w) in flags_all:
                     if tier == "quick" and (s and cl and w):
@@ -103,7 +110,16 @@ def build_input(case, seed):
     X = D.make_matrix(n, p, case["spec"], case["scale"], case["cplx"], seed)
     nlat, nlon = GRID[p]
     lats = LATS[nlat]
-    da = D.da_grid(X, nlat, nlon, lats=lats)
+    store = case.get("store")
+    if store:
+        # integer-valued numbers (non-negative for unsigned storage) held in integer storage; X stays their float64 copy
+        X = np.rint(X * (40.0 / np.abs(X).max()))
+        if store.startswith("u"):
+            X = X - X.min()
+        da = D.da_grid(X.astype(store), nlat, nlon, lats=lats)
+        assert str(da.dtype) == store and np.array_equal(da.values.reshape(n, -1).astype(float), X)
+    else:
+        da = D.da_grid(X, nlat, nlon, lats=lats)
     wvec = None
     wda = None
     if case["weights"]:
@@ -131,6 +147,8 @@ def run_case(case, seed):
     else:
         m = xe.single.ExtendedEOF(tau=case["tau"], embedding=case["embedding"], n_pca_modes=case["n_pca_modes"], **kw)
     feats = dict(solver=case["solver"], center=case["center"], cplx=case["cplx"])
+    if case.get("store"):
+        feats["store"] = "integer"
     V = []
 
     def bad(check, msg, **extra):
